@@ -86,6 +86,7 @@ type Scenario struct {
 	MaxUnavailable string   `json:"maxUnavailable"`
 	PatchMeta      bool     `json:"patchMeta"`     // canary style: patchPodTemplateMetadata
 	FinalizeAfter  int      `json:"finalizeAfter"` // the finalize rules are enabled after this many steps
+	Calm           int      `json:"calm"`          // minimum number of steps between two disturbing rules
 }
 
 func parseIS(s string) intstr.IntOrString {
@@ -340,6 +341,13 @@ func (m *machine) buildWorkload() {
 				NumberAvailable: n, DaemonSetHash: newHash},
 		}
 	default:
+		// apps/v1 defaulting: a Deployment read from an API server always carries both values
+		if ms == nil {
+			ms = parseISPtr("25%")
+		}
+		if mu == nil {
+			mu = parseISPtr("25%")
+		}
 		meta.Labels[v1alpha1.DeploymentStableRevisionLabel] = oldHash
 		obj = &apps.Deployment{
 			TypeMeta: metav1.TypeMeta{APIVersion: "apps/v1", Kind: "Deployment"}, ObjectMeta: meta,
@@ -748,4 +756,21 @@ func (m *machine) exposureOf(w client.Object, canary *apps.Deployment) int {
 		}
 	}
 	return 0
+}
+
+// maxLabel is the highest batch-id label on live pods carrying rollout-id id.
+func (m *machine) maxLabel(id string) int {
+	l := &corev1.PodList{}
+	must(m.cli.List(context.TODO(), l, client.InNamespace(ns)))
+	mx := 0
+	for i := range l.Items {
+		p := &l.Items[i]
+		if p.Labels[v1beta1.RolloutIDLabel] != id {
+			continue
+		}
+		if k, err := strconv.Atoi(p.Labels[v1beta1.RolloutBatchIDLabel]); err == nil && k > mx {
+			mx = k
+		}
+	}
+	return mx
 }
